@@ -123,6 +123,22 @@ def _convert(j, tracker, parent=None):
             n.kids.append(k)
             continue
         n.kids.append(_convert(c, tracker, n))
+    if n.kind == 'IfStmt' and j.get('hasVar') and n.kids and n.kids[0].kind == 'DeclStmt':
+        # if (T *p = f(..)) S   reads   { T *p = f(..); if (p) S }   (the variable is not visible after S either way)
+        decl = n.kids.pop(0)
+        blk = N()
+        blk.kind = blk.raw_kind = 'CompoundStmt'
+        blk.name = blk.type = blk.dtype = blk.op = blk.value = blk.ref = blk.refid = blk.reftype = blk.refkind = None
+        blk.arrow = False
+        blk.storage = ''
+        blk.line = n.line
+        blk.id = None
+        blk.init_style = blk.is_postfix = blk.has_else = blk.cast = None
+        blk.parent = parent
+        blk.kids = [decl, n]
+        decl.parent = blk
+        n.parent = blk
+        return blk
     return n
 
 
@@ -512,6 +528,14 @@ class Env(object):
                 a = strip(n.kids[0])        # address taken: may be written through the pointer
                 if a.kind == 'DeclRefExpr' and a.refid:
                     self.mutated.add(a.refid)
+            if n.kind == 'CallExpr' and n.kids and strip(n.kids[0]).ref in ('swap', 'iter_swap', 'exchange'):
+                # std::swap(a, b): both operands are written
+                for a_ in n.kids[1:]:
+                    a = a_
+                    while a.kind in _WRAPPERS and len(a.kids) == 1 and a.cast != 'LValueToRValue':
+                        a = a.kids[0]
+                    if a.kind == 'DeclRefExpr' and a.refid:
+                        self.mutated.add(a.refid)
         self._cache = {}
         self._ifelse = {}
         for n in fn.walk():
@@ -549,6 +573,46 @@ class Env(object):
                             if len(others) == 1 and not reads_self:
                                 self._ifelse[d.id] = (iff.kids[0], b_.kids[1], self.init_of(d))
 
+        # T *a = A, *b = B;  if (c) std::swap(a, b);   -- a is (c ? B : A), b is (c ? A : B)
+        for n in fn.walk():
+            if n.kind != 'CompoundStmt':
+                continue
+            kids = n.kids
+            for i, st in enumerate(kids[:-1]):
+                if st.kind != 'DeclStmt':
+                    continue
+                nxt = kids[i + 1]
+                if nxt.kind != 'IfStmt' or len(nxt.kids) != 2:
+                    continue
+                b_ = nxt.kids[1]
+                b_ = b_.kids[0] if b_.kind == 'CompoundStmt' and len(b_.kids) == 1 else b_
+                b_ = strip(b_)
+                if not (b_.kind == 'CallExpr' and b_.kids and strip(b_.kids[0]).ref == 'swap' and len(b_.kids) == 3):
+                    continue
+                ops = [strip(x) for x in b_.kids[1:]]
+                if not all(o.kind == 'DeclRefExpr' and o.refid in self.decl for o in ops):
+                    continue
+                da, db = self.decl[ops[0].refid], self.decl[ops[1].refid]
+                declared_here = [d for s_ in kids[:i + 1] if s_.kind == 'DeclStmt' for d in s_.kids]
+                if da not in declared_here or db not in declared_here or self.init_of(da) is None or self.init_of(db) is None or da is db:
+                    continue
+                others = []
+                for x in fn.walk():
+                    if x is b_ or x in list(b_.walk()):
+                        continue
+                    tgt_ = None
+                    if x.kind in ('BinaryOperator', 'CompoundAssignOperator') and x.op and x.op.endswith('=') and x.op not in ('==', '!=', '<=', '>='):
+                        tgt_ = strip(x.kids[0])
+                    elif x.kind == 'UnaryOperator' and x.op in ('++', '--', '&'):
+                        tgt_ = strip(x.kids[0])
+                    elif x.kind == 'CallExpr' and x.kids and strip(x.kids[0]).ref in ('swap', 'iter_swap', 'exchange'):
+                        others.extend(strip(y) for y in x.kids[1:])
+                    if tgt_ is not None:
+                        others.append(tgt_)
+                if any(o.kind == 'DeclRefExpr' and o.refid in (da.id, db.id) for o in others):
+                    continue
+                self._ifelse[da.id] = (nxt.kids[0], self.init_of(db), self.init_of(da))
+                self._ifelse[db.id] = (nxt.kids[0], self.init_of(da), self.init_of(db))
         # T *a, *b; std::tie(a, b) = f(..);  -- a and b are the two components of what f returns
         self._tie = {}
         for n in fn.walk():
@@ -709,6 +773,9 @@ def term(n, env=None, _depth=0):
         elif base[0] == 'deref':
             base = base[1]
         name_ = n.name
+        fo_ = getattr(env, 'flat_objects', None) if env is not None else None
+        if fo_ and base[0] == 'var' and base[1] in fo_ and name_ in fo_[base[1]]:
+            return fo_[base[1]][name_]          # a member of a record local that the model reads as the locals it groups
         if MEMBER_ALIAS and n.kids:
             bt = (n.kids[0].dtype or n.kids[0].type or '').replace('const ', '').replace('struct ', '').replace('class ', '').strip(' &*')
             name_ = MEMBER_ALIAS.get((bt, n.name), n.name)
